@@ -196,7 +196,7 @@ impl Check for C15 {
         "c15"
     }
     fn rule(&self) -> String {
-        "case = a Thrift document built directly from the parser's public descriptor types (includes, cpp_includes, namespaces of every scope, typedefs, consts with nested list/map literals, enums, structs/unions/exceptions with ids/requiredness/defaults/annotations, services with extends/oneway/throws; type annotations and cpp_type), in the parser's normal form, printed three times: canonical layout and two random layouts (whitespace runs, // # /* */ comments wherever blank is allowed, separators ',' ';' or none, single or double quotes, hex ints, 'a . b' paths); half of the identifiers begin with a keyword or literal (trueValue, falsey, optionalFoo, requiredX, stringy, listing, mapper, setting, onewayTrip, throwsUp, i32x ...). Oracle: File::parse leaves nothing unparsed and Debug(items, package) equals the Debug of the generated document for every layout. distinct = Debug hashes of documents with >= 2 items".into()
+        "case = a Thrift document built directly from the parser's public descriptor types (includes, cpp_includes, namespaces of every scope, typedefs, consts with nested list/map literals, enums, structs/unions/exceptions with ids/requiredness/defaults/annotations, services with extends/oneway/throws; type annotations and cpp_type), in the parser's normal form, printed three times: canonical layout and two random layouts (whitespace runs, // # /* */ comments wherever blank is allowed, separators ',' ';' or none, single or double quotes, hex ints of either sign and digit case, 'a . b' paths); half of the identifiers begin with a keyword or literal (trueValue, falsey, optionalFoo, requiredX, stringy, listing, mapper, setting, onewayTrip, throwsUp, i32x ...). Oracle: File::parse leaves nothing unparsed and Debug(items, package) equals the Debug of the generated document for every layout. distinct = Debug hashes of documents with >= 2 items".into()
     }
     fn ncases(&self, ctx: &Ctx) -> u64 {
         ctx.scale(30_000, 3_000_000)
@@ -221,7 +221,7 @@ impl Check for C15 {
         for k in ["item.include", "item.cpp_include", "item.namespace", "item.typedef", "item.const", "item.enum", "item.struct", "item.union", "item.exception", "item.service", "ty.path", "ty.list", "ty.set", "ty.map", "const.bool", "const.path", "const.string", "const.int", "const.double", "const.list", "const.map", "function.oneway", "function.throws", "service.extends", "field.default", "annotations", "cpp_type", "tricky_ident.type_position", "tricky_ident.constant_position", "tricky_ident.name_position"] {
             r.floor(&format!("gen.{}", k), 20);
         }
-        for k in ["comment.slashslash", "comment.hash", "comment.block", "separator.comma", "separator.semicolon", "separator.none", "quote.single", "quote.double", "path.spaced_dot", "int.hex"] {
+        for k in ["comment.slashslash", "comment.hash", "comment.block", "separator.comma", "separator.semicolon", "separator.none", "quote.single", "quote.double", "path.spaced_dot", "int.hex", "int.neg_hex"] {
             r.floor(&format!("layout.{}", k), 20);
         }
     }
@@ -304,6 +304,23 @@ fn mutants(text: &str, rng: &mut Rng, frag: &mut Frag) -> Vec<(String, &'static 
                 frag.count("numeric_positions_boundary");
             }
         }
+    }
+    // a multi-byte character glued to a word token (keyword, type name, identifier, literal
+    // word), after it and before it: byte-index arithmetic at word boundaries. Every distinct
+    // word of the document once, plus random positions.
+    {
+        let mut seen: std::collections::BTreeSet<&str> = Default::default();
+        for (s, e) in &toks {
+            let t = &text[*s..*e];
+            if t.bytes().all(|c| c.is_ascii_alphanumeric() || c == b'_') && seen.insert(t) && seen.len() <= 40 {
+                let ch = *rng.pick(&["é", "—", "中", "🦀"]);
+                out.push((format!("{}{}{}", &text[..*e], ch, &text[*e..]), "multibyte-adjacent"));
+                out.push((format!("{}{}{}", &text[..*s], ch, &text[*s..]), "multibyte-adjacent"));
+            }
+        }
+        // ... and as the very last character of the input, cut after a word
+        let (_, e) = pick(rng);
+        out.push((format!("{}{}", &text[..e], "é"), "multibyte-adjacent"));
     }
     // unterminated comment / quotes at random positions
     for opener in ["/*", "\"", "'", "//", "#"] {
@@ -427,7 +444,7 @@ impl Check for C16 {
         "c16"
     }
     fn rule(&self) -> String {
-        "inputs: random UTF-8/keyword soup up to 64 KiB; token-level mutants (delete, duplicate, replace by punctuation, swap) of generated valid documents in canonical and random layouts; EVERY numeric token inflated to 11, 20, 40 and 400 digits; unterminated /* \" ' // # inserted at random positions; nesting of list<..>, map<..>, [..], {..} and '-' runs at depths 1, 8, 32, 63, 64 (in the statement's clause) and 65, 100, 1000, 20000 (outside it: only 'no panic' is judged, a stack overflow there is logged). Every parse runs on a 2 MiB-stack thread inside a supervised worker process. Oracle: Ok or Err, no panic, worker alive. distinct = hashes of input texts".into()
+        "inputs: random UTF-8/keyword soup up to 64 KiB; token-level mutants (delete, duplicate, replace by punctuation, swap) of generated valid documents in canonical and random layouts; EVERY numeric token inflated to 11, 20, 40 and 400 digits and replaced by the integer-type boundaries; a multi-byte character glued to every distinct word token (before it, after it, and as the last character of a cut input); a multi-byte character glued to every distinct word token (before and after it, and as last character of a cut input); unterminated /* \" ' // # inserted at random positions; nesting of list<..>, map<..>, [..], {..} and '-' runs at depths 1, 8, 32, 63, 64 (in the statement's clause) and 65, 100, 1000, 20000 (outside it: only 'no panic' is judged, a stack overflow there is logged). Every parse runs on a 2 MiB-stack thread inside a supervised worker process. Oracle: Ok or Err, no panic, worker alive. distinct = hashes of input texts".into()
     }
     fn ncases(&self, ctx: &Ctx) -> u64 {
         c16_fixed() + ctx.scale(3_000, 300_000)
@@ -467,7 +484,7 @@ impl Check for C16 {
             r.frag.violation(&format!("c16|death|{}|{}", d.class(), kind), &format!("worker died ({}) while parsing: {}", d.class(), d.label), death_json(d));
         }
         r.assume("nesting deeper than 64 levels is outside the statement's stack clause: a stack overflow there is counted, not judged");
-        for k in ["delete", "duplicate", "replace", "swap", "number-inflate", "number-boundary", "unterminated", "random-utf8"] {
+        for k in ["delete", "duplicate", "replace", "swap", "number-inflate", "number-boundary", "multibyte-adjacent", "unterminated", "random-utf8"] {
             r.floor(&format!("op.{}", k), 1000);
         }
         r.floor("numeric_positions_inflated", 1000);
